@@ -50,7 +50,15 @@ def gen(rng):
         last = 'u2:1'
         ops = [multi.add_op({'a:1': a}, ['a:1'], v)] + [multi.add_op(us, [s_], v) for s_ in us] + [{'k': 'battery', 'expand': ''},
                {'k': 'remove', 'spec': last, '_removed': [last]}, multi.add_op({'ax:1': ax}, ['ax:1'], v)]
-    for s in ({'lexicon': 'a:1'}, {'lexicon': 'a:1 ax:1'}, {'lexicon': 'ax:1'}, {}):
+    extra_sel = []
+    if len(ops) == 2 and rng.random() < 0.5:
+        # the extension is shipped in one file with another version of its base, which uses the same entity ids
+        import copy
+        a2 = copy.deepcopy(a)
+        a2['version'] = '2'
+        ops[1] = multi.add_op({'ax:1': ax, 'a:2': a2}, ['ax:1', 'a:2'], v)
+        extra_sel = [{'lexicon': 'a:2'}]
+    for s in [{'lexicon': 'a:1'}, {'lexicon': 'a:1 ax:1'}, {'lexicon': 'ax:1'}, {}] + extra_sel:
         ops.append(dict({'k': 'battery'}, **s, expand=''))
     return {'ops': ops}
 
